@@ -83,7 +83,7 @@ func runC01(c *Check) {
 		if !a.Write {
 			continue
 		}
-		fn := a.Ins.Parent()
+		fn := HomeFn(a.Ins.Parent())
 		ok := fn == g.Publish || fn == g.Close || fn == g.New
 		c.Report(ok, P+".O5", "WHO-MAY-WRITE-LOG", fn, a.Ins.Pos(), a.What+" of the persisted log", "only Publish extends the persisted log (Close resets it, the constructor creates it)")
 		if fn == g.Close {
